@@ -175,6 +175,7 @@ def C10(ctx):
     vyukov.marker_protocol(ctx)
     vyukov.insert_publication(ctx)
     vyukov.locking(ctx)
+    vyukov.pool_locking(ctx)
     vyukov.grow_protocol(ctx)
     ctx.only_skip = ("VHM.iterator-lock",)
     vyukov.iterator_rules(ctx)
